@@ -108,10 +108,40 @@ def replay_case(ctx):
     ctx.cover(evaluations=1, distinct_nontrivial=1, traces_validated_against_impl=1, rule="replay of one stored row", samples=[row])
 
 
+def pending_part(ctx, thorough):
+    """`converts its result or error back` when the outcome arrives LATER: converted commands of every shape (no result, error,
+    chan error - unbuffered and owned by the handler -, <-chan error, variadic) blocked on gates and released by the harness,
+    also abandoned by RestoreAt while running and called again afterwards; the runner specification decides each run."""
+    import core_common as cc
+    n = 200 if thorough else 30
+    cases_path, trace_path = ctx.path("cases_gate.ndjson"), ctx.path("trace_gate.ndjson")
+    p = ctx.harness(["core", "cmdrace", "--n", n, "--paths", 3 if thorough else 2, "--cases", cases_path, "--out", trace_path],
+                    check=False, timeout=1500)
+    if p.returncode != 0:
+        raise vlib.MachineryError("cmdrace driver failed rc=%d: %s" % (p.returncode, p.stderr[-2000:]))
+    stats = json.loads(p.stdout.strip().splitlines()[-1])
+    cases, _ = cc.load_cases(cases_path)
+    res = cc.validate(ctx, cases_path, trace_path, label="YarnTrace: converted commands whose outcome arrives later (real goroutines)")
+    tix = None
+    for b in res["bad"]:
+        if b["field"] == "wait-too-early":
+            continue        # the timing of <<wait n>> is property C10's
+        tix = tix or cc.TraceIndex(trace_path)
+        ctx.violation(cc.trace_payload(cases, tix, b),
+                      "run with converted commands completing later rejected by the specification (case %d, trace line %d): %s"
+                      % (b["id"], b["line"], cc.describe_diff(b["field"], b["exp"], b["got"])), signature="bridge-pending:" + b["field"])
+    restores = sum(1 for e in vlib.read_ndjson(trace_path) if e["ev"] == "restore")
+    ctx.cover(pending_converted_command_runs=stats["paths"], pending_converted_command_events=stats["events"],
+              restores_while_a_converted_command_was_running=restores)
+
+
 def run(ctx):
     thorough = ctx.tier == "thorough"
     ctx.build()
     if ctx.replay:
+        rp = json.load(open(ctx.replay))["payload"]
+        if str(rp.get("case", {}).get("family", "")).startswith("cmdrace"):
+            return pending_part(ctx, False)   # goroutine cases cannot be re-driven event by event: re-run the tier
         return replay_case(ctx)
     rep = Reporter(ctx)
     samples = []
@@ -199,6 +229,7 @@ def run(ctx):
         violations_by_class=dict(rep.per), suppressed_duplicates=rep.suppressed,
         exhaustive=True, nonvacuity=nonvac, binding_selftest=selftest, samples=samples,
     )
+    pending_part(ctx, thorough)
     ctx.assumptions += [
         "numbers handed to integer kinds are integral and in range, numbers handed to float32 are exactly representable (conversion is then unambiguous)",
         "uint family parameters/results: refused, or accepted and faithful (the property does not settle them)",
